@@ -55,7 +55,9 @@ class Call(Node):
         if name not in self._internal and callable(getattr(self, name, None)):
             try:
                 return getattr(self, name)(*args)
-            except ValueError:
+            except (ValueError, TypeError):
+                # arguments the function cannot take (also: too few or too
+                # many of them): the call is passed through as written
                 pass
 
         if (name not in ('process', 'operate', 'fmt')
@@ -67,7 +69,7 @@ class Call(Node):
                     return result + ' '
                 except TypeError:
                     return result
-            except ValueError:
+            except (ValueError, TypeError):
                 pass
         return name + ''.join([p for p in parsed])
 
